@@ -239,7 +239,7 @@ def eachOnceB {α : Type} [DecidableEq α] (enum obs : List α) : Bool :=
 
 /-- balance: only elements of `enum` occur in `obs`, and no element of `enum` occurs two times
 more often than another (`max − min ≤ 1`) -/
-def countsBalanced {α : Type} [DecidableEq α] (enum obs : List α) : Bool :=
+def countsBalanced {α : Type} [BEq α] (enum obs : List α) : Bool :=
   obs.all (fun p => enum.contains p) &&
     enum.all (fun p => enum.all (fun q => obs.count p ≤ obs.count q + 1))
 
@@ -247,7 +247,7 @@ def countsBalanced {α : Type} [DecidableEq α] (enum obs : List α) : Bool :=
 are created together): after EVERY batch the counts are balanced — i.e. no point is handed out
 for the (k+1)-th time in an earlier batch than some other point's k-th time.  Returns the index
 of the first batch after which the balance is broken. -/
-def firstUnbalanced {α : Type} [DecidableEq α] (enum : List α) : List α → Nat → List (List α) → Option Nat
+def firstUnbalanced {α : Type} [BEq α] (enum : List α) : List α → Nat → List (List α) → Option Nat
   | _, _, [] => none
   | acc, i, b :: rest =>
     if countsBalanced enum (acc ++ b) then firstUnbalanced enum (acc ++ b) (i + 1) rest else some i
